@@ -191,6 +191,10 @@ ATTR_VARIANTS = [
     ('df CDATA "D"', "df", "default"),
     ('kind (x|y) "x"', "kind", "enum"),
     ('toks NMTOKENS #IMPLIED', "toks", "tokens"),
+    # list-typed attributes with a declared default / #FIXED value: an element that omits them has the declared tokens
+    ('tkd NMTOKENS "D1 D2"', "tkd", "tdefault"),
+    ('tkf NMTOKENS #FIXED "F1 F2"', "tkf", "tfixed"),
+    ('tk1 NMTOKENS "one"', "tk1", "tdefault1"),
     ('ref IDREF #IMPLIED', "ref", "imp"),
     # enumerations whose values collide after slugging; the default / fixed value is a member that gets renamed
     ('st (on|ON|off) "ON"', "st", "enumx"),
@@ -250,8 +254,8 @@ def _oracle_docs_failures(a):
                     _, name, kind = ATTR_VARIANTS[i]
                     if kind == "req":
                         given[name] = "v1"
-                    elif kind in ("imp", "default", "enum", "tokens") and ((len(name) + len(w)) % 2):
-                        given[name] = {"imp": "i1", "default": "other", "enum": "y", "tokens": "t1 t2"}[kind]
+                    elif kind in ("imp", "default", "enum", "tokens", "tdefault", "tdefault1") and ((len(name) + len(w)) % 2):
+                        given[name] = {"imp": "i1", "default": "other", "enum": "y", "tokens": "t1 t2", "tdefault": "o1 o2 o3", "tdefault1": "p q"}[kind]
                     elif kind == "enumx" and ENUMX[name][0] is not None and ((len(name) + len(w)) % 2):
                         given[name] = ENUMX[name][0]
                 at = "".join(f' {k}="{v}"' for k, v in given.items())
@@ -303,6 +307,12 @@ def _oracle_docs_failures(a):
                         exp_attrs[name] = "F"
                     elif kind == "default" and name not in given:
                         exp_attrs[name] = "D"
+                    elif kind == "tfixed":
+                        exp_attrs[name] = "F1 F2"
+                    elif kind == "tdefault" and name not in given:
+                        exp_attrs[name] = "D1 D2"
+                    elif kind == "tdefault1" and name not in given:
+                        exp_attrs[name] = "one"
                     elif kind == "enumx" and name not in given:
                         exp_attrs[name] = ENUMX[name][1]
                     elif kind == "enum" and name not in given:
@@ -622,8 +632,9 @@ def impl_dtd_attr(a):
 
 def gen_dtd_attr_fields(rng, tier):
     kinds = ["required", "implied", "fixed", "none"]
-    for tp in ("CDATA", "NMTOKEN", "enum"):
-        yield {"decls": [{"default": k, "value": ("x" if k in ("fixed", "none") else None), "type": tp} for k in kinds]}
+    for tp in ("CDATA", "NMTOKEN", "enum") + G.DTD_LIST_TYPES:
+        for dv in (("x",) if tp not in G.DTD_LIST_TYPES else ("x", "t1 t2")):
+            yield {"decls": [{"default": k, "value": (dv if k in ("fixed", "none") else None), "type": tp} for k in kinds]}
     for _ in range(n_cases(tier, 60, 800)):
         yield {"decls": [G.gen_dtd_attr_decl(rng) for _ in range(rng.randint(1, 6))]}
 
@@ -738,6 +749,11 @@ def gen_dtd_read_attr(rng, tier):
         for k in ("required", "implied", "fixed", "none"):
             v = "x" if k in ("fixed", "none") else None
             yield {"decl": {"default": k, "value": v, "type": tp, "values": ["x", "y", "z"]}, "givens": [None, "y", "x"]}
+    for tp in G.DTD_LIST_TYPES:  # list-typed attributes: the declared tokens are the default of the field
+        for k in ("required", "implied", "fixed", "none"):
+            for dv in ("t1 t2", "x"):
+                v = dv if k in ("fixed", "none") else None
+                yield {"decl": {"default": k, "value": v, "type": tp}, "givens": [None, "y z", dv, "y"]}
     for _ in range(n_cases(tier, 15, 300)):
         d = G.gen_dtd_attr_decl(rng)
         pool = d.get("values") or ["v1", "D", "x"]
@@ -821,7 +837,7 @@ LEVEL_TEXT = (
     "the occurrence indicators sit, a non-list field is never repeated and a required field is always present in a DTD-valid document, and a list "
     "field is needed; the mapper's fields are literally the XSD mapper's sites of the same particle; counterexample theorem for repeated names. "
     "Attribute declarations: whatever a DTD-valid element carries for #REQUIRED / #IMPLIED / #FIXED / defaulted attributes is accepted and read as the value the DTD prescribes "
-    "(dtd_attribute_faithful). Element declarations: mixed content gives one wildcard list, EMPTY no fields, (#PCDATA) a text field; the choices of a mixed class are exactly the listed elements (dtd_mixed_choices); ANY gives a single wildcard field that drops character data after a child (finding C16-any-drops-text, shown by the replay on the real parser). The conclusion readAttr of dtd_attribute_faithful is tied to the real parser by gen.dtd_read_attr. Tied to /repo by "
+    "(dtd_attribute_faithful; list-typed attributes NMTOKENS / IDREFS / ENTITIES keep their declared default: dtd_tokens_default_kept). Element declarations: mixed content gives one wildcard list, EMPTY no fields, (#PCDATA) a text field; the choices of a mixed class are exactly the listed elements (dtd_mixed_choices); ANY gives a single wildcard field that drops character data after a child (finding C16-any-drops-text, shown by the replay on the real parser). The conclusion readAttr of dtd_attribute_faithful is tied to the real parser by gen.dtd_read_attr. Tied to /repo by "
     "correspondence of DtdMapper sites, the handlers and the generated field shapes of the whole pipeline; documents and attribute defaults end to end by the oracle."
 )
 LEVEL_NOTE = "Trusted: Lean kernel, particle language spec, libxml2 DTD reader/validator, stand-in renderer, sampling correspondence."
